@@ -75,12 +75,37 @@ def strict_extrema(x, kind='max'):
     return np.where(m)[0] + 1
 
 
+PARABOLIC_VARIANT = ['closed']     # 'closed' | 'matrix': two algebraically equal ways to get the vertex; comparing
+                                   # them measures how sensitive a result is to rounding in the refinement
+_W_INV = np.array([[.5, -1, .5], [-5 / 2, 4, -3 / 2], [3, -3, 1]])
+
+
 def parabolic_vertex(ym, y0, yp):
     """Vertex (offset from the centre sample, value) of the parabola through (-1,ym),(0,y0),(1,yp)."""
+    if PARABOLIC_VARIANT[0] == 'matrix':
+        # fit a*t^2 + b*t + c at t = 1, 2, 3 (Rato et al. 2008, section 3.2.1) and locate its vertex
+        abc = _W_INV.dot(np.array([ym, y0, yp]))
+        tp = -abc[1] / (2 * abc[0])
+        return tp - 2, tp * abc[1] / 2 + abc[2]
     den = ym - 2 * y0 + yp
     delta = 0.5 * (ym - yp) / den
     val = y0 - 0.25 * (ym - yp) * delta
     return delta, val
+
+
+def rounding_sensitive(fn):
+    """max |fn() under 'closed' - fn() under 'matrix'|: how much a parabolic-refinement result depends on rounding."""
+    old = PARABOLIC_VARIANT[0]
+    try:
+        PARABOLIC_VARIANT[0] = 'closed'
+        a = fn()
+        PARABOLIC_VARIANT[0] = 'matrix'
+        b = fn()
+    finally:
+        PARABOLIC_VARIANT[0] = old
+    if a is None or b is None or np.shape(a) != np.shape(b):
+        return np.inf
+    return float(np.max(np.abs(np.asarray(a, dtype=float) - np.asarray(b, dtype=float)))) if np.size(a) else 0.0
 
 
 def find_extrema(x, kind='peaks', parabolic=False):
